@@ -9,7 +9,7 @@ from checks import gen_common
 
 def run(tier, replay=None):
     res = common.Result('C05', tier, 'exploration')
-    total = 1600 if tier == 'quick' else 32000
+    total = 3200 if tier == 'quick' else 32000
     shapes = set()
 
     def judge(meta, data, E, pbs):
